@@ -61,6 +61,12 @@ class LockEngine(Engine):
         self.cond_fields = cf
     def memoizable(self, callee):
         return False
+    def inlined_result(self, st, fn, call, v):
+        # an integer the interpreter could not compute inside a static helper (a predicate over opaque times, say) is still ONE value: as an
+        # opaque token it keeps its identity, so that `flag = helper (..); x = flag ? a : b; .. if (flag)` stays correlated
+        if v is TOP and fn.internal and call.ty in ('i1', 'i8', 'i32', 'i64') and call is not None:
+            return Ptr('tok:ret:%s:%s:%s' % (fn.name, call.fn.name, call.id), ())
+        return v
     def _inline(self, callee):
         if callee in self.entry_opaque:
             return False          # judged in its own entry; here only its being balanced on the locks matters
